@@ -199,6 +199,14 @@ func (w *World) verifyFunction(fn *ssa.Function, con *Contract) (vc *VC) {
 				vc.failed = fmt.Errorf("%s: %v", funcKey(fn), r)
 			}
 		}
+		// struct sorts that the text of a used spec module mentions
+		for name := range vc.uses {
+			if m := w.specs[name]; m != nil {
+				for _, sf := range m.Forms {
+					vc.ensureSortsIn(sf.Text)
+				}
+			}
+		}
 	}()
 	if fn.Blocks == nil {
 		vc.failed = fmt.Errorf("%s has no body", funcKey(fn))
@@ -322,8 +330,22 @@ func (w *World) verifyFunction(fn *ssa.Function, con *Contract) (vc *VC) {
 				rvals = append(rvals, f.valueTerm(v))
 			}
 			renv.setResults(fn.Signature, rvals, rts)
-			renv.lookup = f.localLookup(r.st)
+			if r.ins != nil {
+				renv.lookup = f.localLookupAt(r.st, r.ins.Block())
+			} else {
+				renv.lookup = f.localLookup(r.st)
+			}
 			for i, e := range con.Ensures {
+				if hasTag(e.Tags, "ghostdef") {
+					// the definition of a ghost history variable in terms of this call's outcome:
+					// callers assume it; there is nothing in the body to check it against
+					// (the body does not, and cannot, assign ghost state)
+					if msg := ghostDefShape(e.Text, shortPkg(fn.Pkg.Pkg.Path())); msg != "" {
+						vc.failed = fmt.Errorf("%s: ghostdef clause %q: %s", e.Line, e.Text, msg)
+						return vc
+					}
+					continue
+				}
 				t, err := renv.trBool(e.Text)
 				if err != nil {
 					vc.failed = fmt.Errorf("%s: ensures %q: %v", e.Line, e.Text, err)
@@ -405,10 +427,35 @@ func (f *Frame) assumeInputWF(v Term, t types.Type) {
 
 // localLookup resolves source-level names of locals through the recorded debug refs.
 func (f *Frame) localLookup(st *State) func(name string) (EV, bool) {
+	return f.localLookupAt(st, nil)
+}
+
+func (f *Frame) recordName(name string, v ssa.Value, b *ssa.BasicBlock) {
+	if f.nameAt == nil {
+		f.nameAt = map[string][]*ssa.BasicBlock{}
+	}
+	for len(f.nameAt[name]) < len(f.names[name]) {
+		f.nameAt[name] = append(f.nameAt[name], nil)
+	}
+	f.names[name] = append(f.names[name], v)
+	f.nameAt[name] = append(f.nameAt[name], b)
+}
+
+// localLookupAt: the meaning of a source name at the entry of block at (or, when at
+// is the block of a return, at its end): the latest recorded reference in a block
+// that dominates at. Blocks are executed in an order that does not follow the
+// control flow of nested loops (the code after an inner loop may come first), so
+// the latest reference recorded so far is not necessarily one that reaches at.
+func (f *Frame) localLookupAt(st *State, at *ssa.BasicBlock) func(name string) (EV, bool) {
 	return func(name string) (EV, bool) {
 		vs := f.names[name]
 		for i := len(vs) - 1; i >= 0; i-- {
 			v := vs[i]
+			if at != nil && i < len(f.nameAt[name]) {
+				if nb := f.nameAt[name][i]; nb != nil && nb.Parent() == at.Parent() && !nb.Dominates(at) {
+					continue
+				}
+			}
 			val, ok := f.vals[v]
 			if !ok {
 				if _, isC := v.(*ssa.Const); isC {
@@ -420,6 +467,12 @@ func (f *Frame) localLookup(st *State) func(name string) (EV, bool) {
 				return EV{a, a.Typ}, true
 			}
 			return EV{f.value(v, st), v.Type()}, true
+		}
+		if at != nil && len(vs) > 0 {
+			// no reference dominates this point (the variable is only assigned on other
+			// paths): the clause can only mention it under a condition that excludes this
+			// path; any recorded meaning will do
+			return f.localLookupAt(st, nil)(name)
 		}
 		// SSA register names (used by generated invariants)
 		if len(name) > 1 && name[0] == 't' && name[1] >= '0' && name[1] <= '9' {
